@@ -28,9 +28,24 @@ def stepIgnore (fields : List String) : Option String :=
       pure (encodeText (Spec.specFilter Generated.ignoreStart Generated.ignoreEnd (← decodeText s)))
   | _ => none
 
+def bits (l : List Bool) : String := String.ofList (l.map fun b => if b then '1' else '0')
+
+def stepGlob (fields : List String) : Option String :=
+  match fields with
+  | ["globrow", g, ps] => do
+      let g ← decodeText g
+      let ps ← decodeList ps
+      pure (bits (ps.map (Model.globMatch g ·)))
+  | ["itemrow", gs, ps] => do
+      let gs ← decodeList gs
+      let ps ← decodeList ps
+      pure (bits (ps.map (Model.itemMatches gs ·)))
+  | ["wfglob", g] => do pure (encodeBool (Spec.wfGlob (← decodeText g)))
+  | _ => none
+
 def step (line : String) : String :=
   let fields := line.splitOn "\t"
-  match stepStr fields <|> stepIgnore fields with
+  match stepStr fields <|> stepIgnore fields <|> stepGlob fields with
   | some out => out
   | none => "bad-op"
 
